@@ -194,8 +194,8 @@ def doc_keep(f, cfg, is_gt, tf_given):
         return F(lst[idx])
 
     c = cfg.get("conf")
-    # documented: the confidence list "is only used when is_gt=False" (the code also applies it to ground
-    # truth, see C10_confidence_estimates_only_refuted; generated ground truth has score 1.0 > every threshold)
+    # documented: the confidence list "is only used when is_gt=False": it never decides on a ground truth
+    # (C10_confidence_estimates_only; /repo 54ea74c repaired the code, which used to apply it to ground truth too)
     if c is not None and not is_gt and not (F(f["conf"]) > (F(0) if mean_mode else F(c[idx]))):
         return False
     if ego is not None:
@@ -251,7 +251,7 @@ def gen_obj(rng, frame, ego, is_gt, family="autoware"):
         ex, ey = float(rng.choice([-10, -5, 5, 10, 0])), float(rng.choice([-5, 5, 0, 3, 4]))
     d = {"family": family, "label": lab, "name": rng.choice(NAMES[lab]),
          "attrs": rng.sample(ATTRS, rng.choice([0, 0, 1, 2])),
-         "conf": 1.0 if is_gt else rng.randint(0, 64) / 64.0,
+         "conf": (1.0 if rng.random() < 0.8 else rng.randint(0, 64) / 64.0) if is_gt else rng.randint(0, 64) / 64.0,
          "uuid": rng.choice(UUIDS + [None]) if is_gt else rng.choice([None, "a", "zz"]),
          "pts": (rng.choice([0, 1, 2, 3, 5, 10]) if rng.random() < 0.95 else None) if is_gt else rng.choice([None, 0, 7])}
     if frame == "cam":
@@ -283,9 +283,8 @@ def gen_cfg(rng, objs_facts, stream):
     xs = sorted({abs(f["pos"][0]) for f in objs_facts if f["pos"]}) or [5.0]
     ys = sorted({abs(f["pos"][1]) for f in objs_facts if f["pos"]}) or [5.0]
     ds = sorted({f["pos"][2] for f in objs_facts if f["pos"]}) or [5.0]
-    # thresholds stay below 1.0 = the score of generated ground truth (the code applies the confidence list
-    # to ground truth too, against its documentation: see C10_confidence_estimates_only_refuted)
-    cs = sorted({f["conf"] for f in objs_facts if f["conf"] < 1.0}) or [0.5]
+    # thresholds include 1.0 = the score of ground truth, and values above it
+    cs = sorted({f["conf"] for f in objs_facts} | {1.0}) or [0.5]
     # unknown-labelled objects may be judged against np.mean(bounds): keep the bounds on the k/8 lattice then, so that
     # the float mean and the exact rational mean order every coordinate identically (no float noise in model / oracle)
     if any(f["is_unknown"] for f in objs_facts):
@@ -311,7 +310,8 @@ def gen_cfg(rng, objs_facts, stream):
     if kind in ("dist", "both"):
         cfg["min_dist"] = [pick(ds, 0, 8) for _ in range(n)]
     if rng.random() < 0.5:
-        cfg["conf"] = [rng.choice(cs) if rng.random() < 0.5 else rng.randint(0, 60) / 64.0 for _ in range(n)]
+        cfg["conf"] = [rng.choice(cs) if rng.random() < 0.5 else rng.choice([rng.randint(0, 64) / 64.0, rng.randint(0, 64) / 64.0, 1.0, 1.5])
+                       for _ in range(n)]
     if rng.random() < 0.5:
         cfg["min_pts"] = [rng.choice([0, 1, 2, 3, 5, 6]) for _ in range(n)]
     if rng.random() < 0.4:
@@ -468,6 +468,11 @@ class FilterObjectsCorr(Corr):
         if want != kept:
             extra = [i for i in kept if i not in want]
             miss = [i for i in want if i not in kept]
+            if case["is_gt"] and case["cfg"].get("conf") is not None:
+                by_conf = [i for i in miss if not doc_keep(obs["facts"][i], case["cfg"], False, tf_given)]
+                if by_conf:
+                    return (f"ground truth {by_conf[0]} is dropped by the confidence threshold list {case['cfg']['conf']} (documented: used for "
+                            f"estimates only): facts={obs['facts'][by_conf[0]]}")
             i = (extra + miss)[0]
             return (f"kept {kept} but the documented criteria select {want}: object {i} "
                     f"({'kept although it violates' if i in extra else 'dropped although it satisfies'} them) facts={obs['facts'][i]}")
@@ -638,6 +643,9 @@ class FilterResultsCorr(Corr):
             diff = [k for k in range(n) if (k in want) != (k in kept)]
             k = diff[0]
             e, g = case["pairs"][k]
+            if k in want and g is not None and cfg.get("conf") is not None and not doc_keep(obs["gt_facts"][g], cfg, False, tf_given):
+                return (f"result {k} is dropped because its ground truth {g} does not exceed the confidence threshold list {cfg['conf']} "
+                        f"(documented: confidence is judged on the estimate only): gt={obs['gt_facts'][g]}")
             return (f"kept results {kept} but the documented criteria select {want}: result {k} (estimate {e}, ground truth {g}) "
                     f"est={obs['est_facts'][e]} gt={None if g is None else obs['gt_facts'][g]}")
         return None
@@ -685,6 +693,15 @@ def _o(label, pos, conf=0.5, uuid=None, pts=None, name=None, attrs=(), family="a
 
 _T2 = [("autoware", "car"), ("autoware", "pedestrian")]
 REGRESSION_OBJECTS = [
+    # witness of the repaired defect (/repo 54ea74c): ground truth whose own score does not exceed the confidence
+    # threshold of its label must be kept -- the confidence list is for estimates only
+    {"frame": "base_link", "tf": None, "is_gt": True, "stream": "regression",
+     "objs": [_o("car", (1.0, 0.0, 0.0), 1.0, "a", 3), _o("pedestrian", (1.0, 0.0, 0.0), 1.0, "a", 3), _o("car", (2.0, 0.0, 0.0), 0.25, "a", 3),
+              _o("car", (20.0, 0.0, 0.0), 1.0, "a", 3)],
+     "cfg": {"targets": _T2, "max_x": [10.0, 10.0], "max_y": [10.0, 10.0], "conf": [0.5, 1.0]}},
+    {"frame": "map", "tf": EGO_POSES[1], "is_gt": True, "stream": "regression",
+     "objs": [_o("car", (101.0, -50.0, 0.0), 1.0, "a", 3), _o("pedestrian", (101.0, -50.0, 0.0), 1.0, "a", 3)],
+     "cfg": {"targets": _T2, "max_dist": [10.0, 10.0], "min_dist": [0.0, 0.0], "conf": [1.0, 1.5]}},
     # every comparison hit with equality and both neighbours, ego frame
     {"frame": "base_link", "tf": None, "is_gt": False, "stream": "regression",
      "objs": [_o("car", (10.0, 0.0, 0.0)), _o("car", (9.875, 0.0, 0.0)), _o("car", (-10.0, 0.0, 0.0)), _o("car", (-10.125, 0.0, 0.0)),
@@ -723,6 +740,11 @@ REGRESSION_OBJECTS = [
      "cfg": {"targets": _T2, "min_pts": [1, 1]}},
 ]
 REGRESSION_RESULTS = [
+    # the same witness through filter_object_results: car estimate 0.9 paired with pedestrian ground truth 1.0, conf=[0.5, 1.0]
+    {"frame": "base_link", "tf": None, "stream": "regression",
+     "ests": [_o("car", (1.0, 0.0, 0.0), conf=0.9), _o("car", (1.0, 0.0, 0.0), conf=0.5)],
+     "gts": [_o("pedestrian", (1.0, 0.0, 0.0), 1.0, "a", 3)], "pairs": [[0, 0], [1, None]],
+     "cfg": {"targets": _T2, "max_x": [10.0, 10.0], "max_y": [10.0, 10.0], "conf": [0.5, 1.0]}},
     # estimate passes, ground truth fails each GT-only criterion in turn; GT-less result with/without uuids
     {"frame": "base_link", "tf": None, "stream": "regression",
      "ests": [_o("car", (1.0, 0.0, 0.0)) for _ in range(7)],
